@@ -21,6 +21,7 @@ def split_gap(rng, d, k):
 
 class C07(PropBase):
     id = 'C07'
+    partial_passes = 0.25
     lean_modules = ['Isotp.Props.C07']
     theorems = []
     rule = ('timeouts 1 ms..10 s; RX: a well-formed message of 2..20 frames with one inter-frame gap T +/- delta (delta 1 us..T/2, never on the '
@@ -284,7 +285,7 @@ class C07(PropBase):
     def judge(self, sc, lines_in, impl_out):
         meta = sc['meta']
         out = []
-        recs = trace.records(lines_in, impl_out)
+        recs = trace.records(lines_in, impl_out, sc)
         cf_to = [(r.k, e['t']) for r in recs for e in r.events if e['k'] == 'err' and e['name'] == 'ConsecutiveFrameTimeoutError']
         fc_to = [(r.k, e['t']) for r in recs for e in r.events if e['k'] == 'err' and e['name'] == 'FlowControlTimeoutError']
         delivered = [e['data'] for r in recs for e in r.events if e['k'] == 'deliver']
